@@ -187,6 +187,7 @@ type X struct {
 	cleanupSeq int
 	skipping   bool // the program called Skip and the panic is unwinding
 	attempts   int  // action attempts started in this invocation
+	siteDepth  int  // extra stack frames between a failure site and the signal
 }
 
 const (
@@ -339,12 +340,13 @@ const (
 	fkError
 	fkErrorf
 	fkFail
-	fkErrorEmpty  // t.Error() without arguments
-	fkErrorfEmpty // t.Errorf("")
+	fkErrorEmpty      // t.Error() without arguments
+	fkErrorfEmpty     // t.Errorf("")
+	fkFatalfRecovered // t.Fatalf behind the callback's own recover(): the callback goes on, the failure must stick
 	nFailKinds
 )
 
-var failKindNames = []string{"panic-string", "panic-error", "panic-struct", "panic-nil", "rt-index", "rt-nilmap", "rt-div0", "Fatal", "Fatalf", "FailNow", "Error", "Errorf", "Fail", "Error-empty", "Errorf-empty"}
+var failKindNames = []string{"panic-string", "panic-error", "panic-struct", "panic-nil", "rt-index", "rt-nilmap", "rt-div0", "Fatal", "Fatalf", "FailNow", "Error", "Errorf", "Fail", "Error-empty", "Errorf-empty", "Fatalf-recovered"}
 
 func kindFatal(k int) bool { return k >= fkFatal && k <= fkFailNow }
 func kindPanic(k int) bool { return k <= fkDiv0 }
@@ -363,7 +365,7 @@ var nilMap map[string]int
 // expectedMsg is the text rapid is expected to name for a failure of kind k raised with msg.
 func expectedMsg(k int, msg string) string {
 	switch k {
-	case fkPanicStr, fkPanicErr, fkFatal, fkFatalf, fkError, fkErrorf:
+	case fkPanicStr, fkPanicErr, fkFatal, fkFatalf, fkError, fkErrorf, fkFatalfRecovered:
 		return msg
 	case fkPanicStruct:
 		return fmt.Sprintf("%v", boomStruct{7, msg})
@@ -424,28 +426,64 @@ func raise(x *X, t *rapid.T, k int, site int, msg string) {
 		t.Error()
 	case fkErrorfEmpty:
 		t.Errorf("")
+	case fkFatalfRecovered:
+		func() {
+			defer func() { _ = recover() }()
+			t.Fatalf("%s", msg)
+		}()
 	}
 }
 
 // Distinct call stacks = distinct failure sites.
 
 //go:noinline
-func site0(x *X, t *rapid.T, k int, msg string) { raise(x, t, k, 0, msg); runtime.KeepAlive(x) }
+func site0(x *X, t *rapid.T, k int, msg string) {
+	deepRaise(x, t, k, 0, msg, x.siteDepth)
+	runtime.KeepAlive(x)
+}
 
 //go:noinline
-func site1(x *X, t *rapid.T, k int, msg string) { raise(x, t, k, 1, msg); runtime.KeepAlive(t) }
+func site1(x *X, t *rapid.T, k int, msg string) {
+	deepRaise(x, t, k, 1, msg, x.siteDepth)
+	runtime.KeepAlive(t)
+}
 
 //go:noinline
-func site2(x *X, t *rapid.T, k int, msg string) { raise(x, t, k, 2, msg); runtime.KeepAlive(k) }
+func site2(x *X, t *rapid.T, k int, msg string) {
+	deepRaise(x, t, k, 2, msg, x.siteDepth)
+	runtime.KeepAlive(k)
+}
 
 //go:noinline
-func site3(x *X, t *rapid.T, k int, msg string) { raise(x, t, k, 3, msg); runtime.KeepAlive(msg) }
+func site3(x *X, t *rapid.T, k int, msg string) {
+	deepRaise(x, t, k, 3, msg, x.siteDepth)
+	runtime.KeepAlive(msg)
+}
 
 //go:noinline
-func site4(x *X, t *rapid.T, k int, msg string) { raise(x, t, k, 4, msg); runtime.KeepAlive(x) }
+func site4(x *X, t *rapid.T, k int, msg string) {
+	deepRaise(x, t, k, 4, msg, x.siteDepth)
+	runtime.KeepAlive(x)
+}
 
 //go:noinline
-func site5(x *X, t *rapid.T, k int, msg string) { raise(x, t, k, 5, msg); runtime.KeepAlive(t) }
+func site5(x *X, t *rapid.T, k int, msg string) {
+	deepRaise(x, t, k, 5, msg, x.siteDepth)
+	runtime.KeepAlive(t)
+}
+
+// deepRaise reaches raise through d further stack frames: the frames that tell two failure sites apart (siteN)
+// are then far from the innermost frame, as they are for a bug deep inside the code under test.
+//
+//go:noinline
+func deepRaise(x *X, t *rapid.T, k int, site int, msg string, d int) {
+	if d > 0 {
+		deepRaise(x, t, k, site, msg, d-1)
+		runtime.KeepAlive(d)
+		return
+	}
+	raise(x, t, k, site, msg)
+}
 
 var sites = []func(x *X, t *rapid.T, k int, msg string){site0, site1, site2, site3, site4, site5}
 
@@ -547,6 +585,7 @@ type Prog struct {
 	Seed  uint64
 	Steps []Step
 	Desc  string
+	Depth int // extra call depth between failure sites and the signal
 }
 
 func (s Step) describe() string {
@@ -779,6 +818,7 @@ type progOpts struct {
 	failDen    int // hash-predicate failure probability is about 1/failDen
 	onlyKinds  []int
 	siblings   bool // force an "at least two elements" failure (equal sibling groups in the minimum)
+	customFail bool // allow draws from a Custom generator whose function itself signals failures (on its inner T)
 	skipFirst  int  // if > 0: skip about 1/skipFirst of all cases right after the first draw
 	skipAfter  bool // add a skip after the failure steps (non-fatal failure followed by Skip)
 }
@@ -794,6 +834,8 @@ func genProg(seed uint64, o progOpts) *Prog {
 		case o.siblings && i == 0:
 			// full-range elements: the minimal counterexample is [0, 0, ...] – equal sibling groups
 			g = siblingGX(r)
+		case o.customFail && r.chance(1, 3):
+			g = gxCustomFail(r, o)
 		case o.rejecting && r.chance(2, 3):
 			g = gxRejecting(r)
 		case r.chance(1, 2):
@@ -840,11 +882,17 @@ func genProg(seed uint64, o progOpts) *Prog {
 	if o.skipAfter {
 		p.Steps = append(p.Steps, Step{Op: "skipif", Pred: hashPred(r, 2)})
 	}
+	if r.chance(1, 4) {
+		p.Depth = 14
+	}
 	var ds []string
 	for _, s := range p.Steps {
 		ds = append(ds, s.describe())
 	}
 	p.Desc = strings.Join(ds, "; ")
+	if p.Depth > 0 {
+		p.Desc += fmt.Sprintf("; [failure sites %d frames deep]", p.Depth)
+	}
 	return p
 }
 
@@ -1016,6 +1064,33 @@ func genRepeat(r *rng, o progOpts) Step {
 	return st
 }
 
+// gxCustomFail is a Custom generator whose function signals a failure on its own (inner) T for some of the values
+// it draws - the failure site is inside generator code that runs under rapid's retry loop.
+func gxCustomFail(r *rng, o progOpts) *GX {
+	kind := o.pickKind(r)
+	site := 4 + r.intn(2)
+	den := uint64(r.between(3, 40))
+	salt := r.next()
+	desc := fmt.Sprintf("CustomFail(IntRange(0,1000), %s at s%d if h%%%d<1)", failKindNames[kind], site, den)
+	gen := rapid.Custom(func(t *rapid.T) any {
+		x := curX
+		v := rapid.IntRange(0, 1000).Draw(t, "cf")
+		if mix(uint64(v), salt)%den == 0 && x != nil {
+			saved := x.where
+			x.where = "custom"
+			defer func() { x.where = saved }()
+			sites[site](x, t, kind, fmt.Sprintf("boom k%d s%d c%d", kind, site, v))
+		}
+		return v
+	})
+	return &GX{Desc: desc, Gen: gen, Cmp: true, Int: true, Rej: true, Check: func(v any) string {
+		if n, ok := v.(int); !ok || n < 0 || n > 1000 {
+			return fmt.Sprintf("%s returned %v", desc, v)
+		}
+		return ""
+	}}
+}
+
 // filteredSmallInt: IntRange(0,9) filtered to a few values: find() often needs several tries and sometimes gives up.
 func filteredSmallInt(r *rng) *GX {
 	lo := r.between(5, 9)
@@ -1029,4 +1104,9 @@ func filteredSmallInt(r *rng) *GX {
 		}}
 }
 
-func (p *Prog) body() func(x *X) { return func(x *X) { x.exec(p.Steps) } }
+func (p *Prog) body() func(x *X) {
+	return func(x *X) {
+		x.siteDepth = p.Depth
+		x.exec(p.Steps)
+	}
+}
